@@ -246,6 +246,65 @@ def respell(v, rng):
     return rng.choice(['', ' ', '/*l*/', '\n ']) + body + rng.choice(['', ' ', ' /*t*/', '\n'])
 
 
+def spell_name(name, rng):
+    """a spelling of a property name that normalises to `name`: letter case and simple escapes (a backslash
+    before a letter that is no hex digit: `c\\olor`, `\\z-index`)"""
+    r = rng.random()
+    if r < 0.4:
+        return name
+    out = name
+    if rng.random() < 0.5:
+        out = ''.join(c.upper() if rng.random() < 0.5 else c for c in out)
+    if rng.random() < 0.7:
+        idx = [i for i, c in enumerate(out) if c.lower() in 'ghijklmnopqrstuvwxyz']
+        for i in sorted(rng.sample(idx, min(len(idx), rng.randint(1, 2))), reverse=True):
+            out = out[:i] + '\\' + out[i:]
+    return out
+
+
+def has_function(v):
+    """a functional notation other than url( (inside url( a comment would be part of the URI)"""
+    return any(m.group(1).lower() != 'url' for m in re.finditer(r'([A-Za-z-]+)\(', v))
+
+
+def inner_comments(v, rng):
+    """put comments / extra white space between the arguments of functions (not url(), not inside strings)"""
+    out, depth, q, stack, i, done = [], 0, None, [], 0, False
+    for m in re.finditer(r'([A-Za-z-]*)\(|\)|"|\'|,|[^()"\',]+', v):
+        t = m.group(0)
+        if q:
+            out.append(t)
+            if t == q:
+                q = None
+            continue
+        if t in '"\'' and len(t) == 1:
+            q = t
+            out.append(t)
+        elif t.endswith('('):
+            stack.append(m.group(1).lower())
+            out.append(t)
+            if stack[-1] != 'url' and 'url' not in stack and rng.random() < 0.4:
+                out.append(rng.choice(['/*i*/', ' /*i*/ ']))
+                done = True
+        elif t == ')':
+            if stack and 'url' not in stack and rng.random() < 0.3:
+                out.append(rng.choice(['/*i*/', ' /*i*/']))
+                done = True
+            if stack:
+                stack.pop()
+            out.append(t)
+        elif t == ',' and stack and 'url' not in stack:
+            r = rng.random()
+            if r < 0.5:
+                out.append(rng.choice([',/*i*/', ', /*i*/ ', '/*i*/,', ' /*i*/ , ']))
+                done = True
+            else:
+                out.append(t)
+        else:
+            out.append(t)
+    return ''.join(out), done
+
+
 def safe_value(v):
     """can be put into `a{p:V}` without ending the declaration / block or containing a fold-special letter"""
     if any(c in v for c in ';{}!@') or any(c in FOLD_SPECIAL for c in v):
@@ -679,7 +738,7 @@ class C13(Check):
         if not safe_value(v) or not v.strip():
             v, kind = rng.choice(['inherit', 'none', '1px', 'red', '4', 'auto']), 'fixed'
         prio = rng.choice(['', '', '', '', ' !important', '!IMPORTANT', ' ! important', ' !x'])
-        spelled = name if rng.random() < 0.8 else name.upper()
+        spelled = spell_name(name, rng) if rng.random() < 0.5 else name
         return '%s:%s%s' % (spelled, v, prio), name
 
     def gen_block(self, rng, fontface=False):
@@ -842,6 +901,24 @@ class C13(Check):
     def fold(s):
         return ''.join(chr(ord(c) + 32) if 'A' <= c <= 'Z' else c for c in s)
 
+    @staticmethod
+    def shadow_region(name, value):
+        """C13-shadow-lengths-run-together: box-shadow / text-shadow with a number written `0.x`: the shadow macro
+        separates its lengths by optional white space, so `0.7pc` also reads as the two lengths `0` `.7pc`"""
+        if name in ('box-shadow', 'text-shadow') and re.search(r'(?<![0-9.])0+\.[0-9]', value):
+            return 'C13-shadow-lengths-run-together'
+        return None
+
+    FUNCTION_VALUES = [('color', 'rgb(1, 2, 3)'), ('background-color', 'rgb(10%, 20%, 30%)'),
+                       ('clip', 'rect(1px, 2px, 3px, 4px)'), ('content', 'counter(x, disc)'),
+                       ('content', 'attr(title) "x"'), ('color', 'rgba(1, 2, 3, 0.5)'), ('color', 'hsl(1, 2%, 3%)'),
+                       ('border-top-color', 'hsla(1, 2%, 3%, 0.5)'), ('text-shadow', '1px 1px rgb(1, 2, 3)'),
+                       ('src', 'local(a b), url(a) format("b", "c")'), ('background', 'url(x) rgb(1, 2, 3) no-repeat'),
+                       ('width', 'calc(1px + 2px)'), ('content', 'counters(x, ".")'),
+                       # numbers with a zero integer part where several lengths follow each other
+                       ('box-shadow', '0.7pc red'), ('text-shadow', '0.5em 0.25em'), ('margin', '0.5em 0.25em'),
+                       ('border-spacing', '0.5px'), ('background-position', '0.5em 0.5em')]
+
     def oracle_spelling_roundtrip_paths(self, ctx):
         rng = self.rng(ctx, 'spell')
         cu = self.cu
@@ -849,6 +926,9 @@ class C13(Check):
         for _ in range(ctx.n(1200, 20000)):
             name = rng.choice(self.names) if rng.random() < 0.93 else rng.choice(['x', 'colour'])
             v, kind = self.value_for(name, rng)
+            if rng.random() < 0.1:
+                name, v = rng.choice(self.FUNCTION_VALUES)
+                kind = 'function'
             v = ' '.join(v.split())
             if not safe_value(v) or not v:
                 continue
@@ -856,9 +936,14 @@ class C13(Check):
             wrap = '@font-face{%s}' if ff else 'a{%s}'
             prio = rng.choice(['', '', '', '!important'])
             base = None
-            spellings = [v] + [respell(v, rng) for _ in range(rng.randint(1, 3))]
-            for sp in spellings:
-                nm = name if rng.random() < 0.7 else name.upper()
+            spellings = [(v, None)] + [(respell(v, rng), None) for _ in range(rng.randint(1, 3))]
+            if has_function(v) and rng.random() < 0.6:
+                outer = respell(v, rng)
+                inner, done = inner_comments(outer, rng)
+                if done:
+                    spellings.append((inner, outer))
+            for sp, sp_outer in spellings:
+                nm = name if sp is v else spell_name(name, rng)
                 css = wrap % ('%s:%s%s' % (nm, sp, prio))
                 s = self.parse(css)
                 ps = s.cssRules[0].style.getProperties(all=True) if s.cssRules.length and hasattr(s.cssRules[0], 'style') else []
@@ -875,13 +960,25 @@ class C13(Check):
                         if v2 != [o[3] for o in obs]:
                             ctx.violate('the verdict does not depend on the serializer preferences in effect when '
                                         '`valid` is read', {'css': css, 'preferences': label},
-                                        {'default': [o[3] for o in obs], label: v2})
+                                        {'default': [o[3] for o in obs], label: v2},
+                                        known=self.shadow_region(name, sp))
                             break
                 elif obs != base[1]:
+                    known = None
+                    if sp_outer is not None:
+                        # region of C13-comment-inside-function: the only difference to a spelling that agrees
+                        # with the base is the comments between function arguments
+                        s0 = self.parse(wrap % ('%s:%s%s' % (nm, sp_outer, prio)))
+                        ps0 = s0.cssRules[0].style.getProperties(all=True) \
+                            if s0.cssRules.length and hasattr(s0.cssRules[0], 'style') else []
+                        if [self.prop_obs(q) for q in ps0] == base[1]:
+                            known = 'C13-comment-inside-function'
                     ctx.violate('the verdict and the value text (up to ASCII case) are the same for every spelling '
-                                '(case, comments, whitespace) of a value',
-                                {'css_a': base[0], 'css_b': css}, {'a': base[1], 'b': obs})
-                    break
+                                '(case, comments, whitespace) of a value and of the property name (case, escapes)',
+                                {'css_a': base[0], 'css_b': css}, {'a': base[1], 'b': obs}, known=known)
+                    if known is None:
+                        break
+                    continue
                 if not ps:
                     continue
                 p = ps[0]
@@ -903,23 +1000,24 @@ class C13(Check):
             want = base[1][0]
             pr = 'important' if prio else ''
             paths = {}
+            nm = spell_name(name, rng)          # the name as the caller writes it: case and simple escapes
             try:
                 with time_limit(10):
-                    p1 = cu.css.Property(name, v, pr)
+                    p1 = cu.css.Property(nm, v, pr)
                     paths['Property()'] = self.prop_obs(p1) if p1.wellformed else None
                     st = cu.css.CSSStyleDeclaration()
-                    st.setProperty(name, v, pr)
+                    st.setProperty(nm, v, pr)
                     paths['setProperty'] = [self.prop_obs(q) for q in st.getProperties(all=True)]
                     st2 = cu.css.CSSStyleDeclaration()
-                    st2.cssText = '%s:%s%s' % (name, v, prio)
+                    st2.cssText = '%s:%s%s' % (nm, v, prio)
                     paths['style.cssText'] = [self.prop_obs(q) for q in st2.getProperties(all=True)]
-                    st3 = cu.parseStyle('%s:%s%s' % (name, v, prio))
+                    st3 = cu.parseStyle('%s:%s%s' % (nm, v, prio))
                     paths['parseStyle'] = [self.prop_obs(q) for q in st3.getProperties(all=True)]
                     st4 = cu.css.CSSStyleDeclaration()
-                    st4[name] = (v, pr) if pr else v
+                    st4[nm] = (v, pr) if pr else v
                     paths['style[name]='] = [self.prop_obs(q) for q in st4.getProperties(all=True)]
                     rule = cu.css.CSSStyleRule(selectorText='a')
-                    rule.style.setProperty(name, v, pr)
+                    rule.style.setProperty(nm, v, pr)
                     sh = cu.css.CSSStyleSheet()
                     sh.add(rule)
                     paths['rule in sheet'] = [self.prop_obs(q) for q in rule.style.getProperties(all=True)]
@@ -934,7 +1032,7 @@ class C13(Check):
                 if o1 != want:
                     ctx.violate('the verdict does not depend on how the property came to exist '
                                 '(parsed, constructed, set through the DOM)',
-                                {'name': name, 'value': v, 'priority': prio, 'path': k},
+                                {'name': nm, 'value': v, 'priority': prio, 'path': k},
                                 {'parsed': want, k: o1})
                     break
         self.compare(ctx, 'Property.valid of parsed spellings', lines, exp)
@@ -999,6 +1097,13 @@ class C13(Check):
                 forms = rng.sample(forms, ctx.n(14, 120))
             else:
                 forms = rng.sample(forms, ctx.n(90, len(forms)))
+            # strings drawn from the translated pattern(s) of the property: whatever the registry accepts has to
+            # be in the CSS 2.1 grammar (judged by the independent reading; concrete input when a table grows)
+            for ast_ in self.by_name.get(name, []):
+                for _ in range(ctx.n(12, 150)):
+                    v = sample(ast_, rng)
+                    if v and v not in forms and len(v) < 40:
+                        forms.append(v)
             for v in forms:
                 expected = self.typed_member(types, kws, v)
                 w = {'property': name, 'value': v}
@@ -1165,6 +1270,22 @@ class C13(Check):
                 if extended and len(m.split()) > 1:
                     continue
                 cases.append((name, m, None, 'kw-nearmiss'))
+        # candidates enumerated from the translated pattern itself: every word of its finite language (and of the
+        # other patterns registered under the name) that the reference list does not have, every reference keyword
+        # the pattern does not have, and recombinations of the segments of the pattern's words
+        for name, kws in sorted(self.kwspec.items()):
+            pool = set()
+            for ast_ in self.by_name.get(name, []):
+                w = c13_profiles.words(c13_profiles.body_of(c13_profiles.freeze(ast_)))
+                if w is not None:
+                    pool |= {''.join(chr(c) for c in x) for x in w}
+            segs = sorted({p for k in pool | set(kws) for p in k.split('-')})
+            heads = sorted({k.split('-')[0] for k in pool | set(kws) if '-' in k})
+            recomb = {h + '-' + t for h in heads for t in segs if t != h}
+            for k in sorted((pool ^ set(kws)) | (pool - set(kws))):
+                cases.append((name, k, k in kws, 'kw-pattern-word'))
+            for k in sorted(recomb - set(kws)):
+                cases.append((name, k, False, 'kw-recombination'))
         # single-type properties
         for name, (types, kws) in sorted(SINGLE_TYPE.items()):
             for k in ALL_KEYWORDS:
@@ -1409,6 +1530,21 @@ class C13(Check):
         w = finding['witness']['data']
         if 'call' in w:
             return bool(self.P.validate(w['name'], w['value'])) != w['css21_grammar_member']
+        if 'preferences' in w:
+            s = self.parse(w['css'])
+            ps = [p for r in s if hasattr(r, 'style') for p in r.style.getProperties(all=True)]
+            base = [bool(p.valid) for p in ps]
+            for label, setting in self.PREF_SETTINGS[1:]:
+                with self.prefs(setting):
+                    if [bool(p.valid) for p in ps] != base:
+                        return True
+            return False
+        if 'css_a' in w:
+            obs = []
+            for k in ('css_a', 'css_b'):
+                s = self.parse(w[k])
+                obs.append([self.prop_obs(p) for p in s.cssRules[0].style.getProperties(all=True)])
+            return obs[0] != obs[1]
         if 'css' in w and finding['id'].startswith('C13-valid'):
             s = self.parse(w['css'])
             props = []
